@@ -42,31 +42,34 @@ Definition prefix2_is (s : text) (x : N) : bool :=                              
   end.
 Definition last_is (s : text) (x : N) : bool := match rev s with c :: _ => N.eqb c x | [] => false end.
 
+(* the number branch, applied to s.rstrip('uUlL') *)
+Definition num_value (s1 : text) : res Z :=
+  match (if starts0 s1 then py_int 8 s1 else py_int 10 s1) with
+  | Some v => Ok v
+  | None =>
+      if (1 <? Z.of_nat (length s1)) then
+        if prefix2_is s1 120 then
+          match py_int 16 s1 with Some v => Ok v | None => Err ValueError end    (* int(s, 16) is not guarded *)
+        else if prefix2_is s1 98 then
+          match py_int 2 s1 with Some v => Ok v | None => Err ValueError end
+        else Err CDefError
+      else Err CDefError
+  end.
+(* the character-constant branches (s[0] == s[-1] == "'" already tested) *)
+Definition char_value (s : text) : res Z :=
+  match s with
+  | [_; c; _] => if negb (N.eqb c 92) then Ok (Z.of_N c) else Err CDefError
+  | [_; b; e; _] => if N.eqb b 92 then
+                      match assoc e simple_escapes with Some v => Ok v | None => Err CDefError end
+                    else Err CDefError
+  | _ => Err CDefError
+  end.
 Definition lit_value (s : text) : res Z :=
   match s with
   | [] => Err IndexError                                    (* s[0]; the lexer never gives an empty token *)
   | c0 :: _ =>
-      if n_in 48 57 c0 then
-        let s1 := rstrip_ul s in
-        match (if starts0 s1 then py_int 8 s1 else py_int 10 s1) with
-        | Some v => Ok v
-        | None =>
-            if (1 <? Z.of_nat (length s1)) then
-              if prefix2_is s1 120 then
-                match py_int 16 s1 with Some v => Ok v | None => Err ValueError end    (* not caught! *)
-              else if prefix2_is s1 98 then
-                match py_int 2 s1 with Some v => Ok v | None => Err ValueError end
-              else Err CDefError
-            else Err CDefError
-        end
-      else if N.eqb c0 39 && last_is s 39 then
-        match s with
-        | [_; c; _] => if negb (N.eqb c 92) then Ok (Z.of_N c) else Err CDefError
-        | [_; b; e; _] => if N.eqb b 92 then
-                            match assoc e simple_escapes with Some v => Ok v | None => Err CDefError end
-                          else Err CDefError
-        | _ => Err CDefError
-        end
+      if n_in 48 57 c0 then num_value (rstrip_ul s)
+      else if N.eqb c0 39 && last_is s 39 then char_value s
       else Err CDefError
   end.
 
